@@ -246,8 +246,8 @@ BASE_NOTE = ("Trusted: Lean kernel (axioms propext, Classical.choice, Quot.sound
 NOTES = {
     "C01": "Depth: tree level. Struct views (encoding/xml), ds:Signature views and decryption are inputs computed by the real code; that identity is a function of the canonical form is tested, not proved; "
            "only exclusive c14n + enveloped transform.",
-    "C07": "Partial for XML attribute positions: attribute values round-trip for every string without a carriage return (theorem C07_attr_roundtrip_partial, counterexample theorem, known finding c07-cr-in-xml-attribute); "
-           "character data (NameID, attribute values) is proved for every XML character.",
+    "C07": "Character data and attribute values are proved to round-trip for every XML character (writer = etree + the package's carriage-return escaper, tied by facts and by the xmlesc correspondence through hook VerifXMLToBytes); "
+           "the struct-level composition and the published-metadata theorems carry the rest; signatures and encryption bytes are exercised, not modelled.",
     "C09": "Partial: totality of the library's own logic after parsing, and the inflate bound, are proved; termination/allocation of third-party parsers on arbitrary bytes is only sampled.",
     "C10": "Partial: C10_all_offered is proved for every offered combination except AES-GCM encryption (known findings gcm-encrypt-*; counterexample theorem).",
     "C15": "Durations (every int64) and instants (every instant whose rounded year has at most four digits, with the calendar inverse proved) are theorems; "
